@@ -17,6 +17,11 @@ fn main() {
         let lim = libc::rlimit { rlim_cur: 65536, rlim_max: 65536 };
         libc::setrlimit(libc::RLIMIT_NOFILE, &lim);
     }
+    if std::env::var("VERIF_SHARD").is_ok() {
+        // a shard must not outlive the check that spawned it (it would keep binding the
+        // check's loopback addresses and answer the next check's connections)
+        unsafe { libc::prctl(libc::PR_SET_PDEATHSIG, libc::SIGKILL) };
+    }
     if std::env::var("VERIF_PANIC_TRACE").is_err() {
         common::quiet_panics();
     }
